@@ -98,7 +98,7 @@ class Rule:
 
     def finish(self) -> None:
         n = self.count()
-        if n < self.floor:
+        if n < self.floor and not self.count(("VIOLATION",)):  # a rule that reports is not vacuous
             raise AnalysisError(
                 f"{self.rid}: matched {n} instances, below the floor {self.floor} confirmed by hand "
                 "(a rule matching too few sites passes vacuously)"
@@ -228,11 +228,30 @@ class Check:
         return 0
 
 
+def thorough_selfcheck(chk: Check) -> None:
+    """Thorough tier: run the property's seeded variants and kept seeded changes on scratch copies.
+    Recorded, not judged: a variant that is not reported is a weakness of the analyser, printed as
+    SELFTEST-WARN and stored in the evidence; the verdict depends on /repo's tree only."""
+    try:
+        from .selftest import for_property
+        res = for_property(chk.pid)
+    except Exception as e:  # noqa: BLE001
+        print(f"SELFTEST-WARN property={chk.pid} self-check could not run: {type(e).__name__}: {e}")
+        chk.extra["seeded_variants_error"] = f"{type(e).__name__}: {e}"
+        return
+    chk.extra.update(res)
+    print(f"self-check: {res['seeded_variants_fired']}/{res['seeded_variants_run']} seeded variants reported" + (f", {len(res['seeded_variants_skipped'])} skipped (anchor moved)" if res["seeded_variants_skipped"] else ""))
+    for n in res["seeded_variants_not_fired"]:
+        print(f"SELFTEST-WARN property={chk.pid} variant not reported: {n}")
+
+
 def run_check(pid: str, tier: str, body) -> int:
     """Run `body(check)`; convert every analyser failure into exit 2, never into a verdict."""
     chk = Check(pid, tier)
     try:
         body(chk)
+        if tier == "thorough":
+            thorough_selfcheck(chk)
         return chk.conclude()
     except AnalysisError as e:
         print(f"ANALYSIS-ERROR property={pid}: {e}")
